@@ -178,6 +178,8 @@ def alphabet0(root, f):
         ('eval', ('return 2 ** 70',)),                               # result cannot be serialised
         ('eval', ('return object()',)),
         ('nosuch', (1,)),                                            # unknown method
+        ('eval', ('raise SystemExit(3)',)),                          # a request that tries to end the server
+        ('eval', ('import sys\nsys.exit("bye")',)),
     ]
 
 
@@ -225,7 +227,7 @@ class Reference(object):
                 except Exception:
                     return ('exc', 'Serialize error')
             return ('exc', "'Server' object has no attribute '%s'" % name)
-        except Exception as e:
+        except (Exception, SystemExit) as e:
             return ('exc', str(e))
 
 
